@@ -332,6 +332,9 @@ where
             .squeeze(1)
             .mul_scalar(T::from(0.5).unwrap());
 
+        #[cfg(feature = "verif")]
+        let (verif_momentum_0, verif_logp_current) = (momentum_0.clone(), logp_current.clone());
+
         // Compute the Hamiltonian: -logp + kinetic energy, shape [n_chains]
         let h_current: Tensor<B, 1> = -logp_current + ke_current;
 
@@ -345,6 +348,9 @@ where
             .sum_dim(1)
             .squeeze(1)
             .mul_scalar(T::from(0.5).unwrap());
+
+        #[cfg(feature = "verif")]
+        let verif_logp_proposed = logp_proposed.clone();
 
         let h_proposed = -logp_proposed + ke_proposed;
 
@@ -361,6 +367,19 @@ where
             burn::tensor::Distribution::Default,
             &B::Device::default(),
         );
+
+        #[cfg(feature = "verif")]
+        {
+            let uniform = uniform.clone();
+            crate::verif::emit(move || crate::verif::Event::HmcStep {
+                n_chains,
+                dim,
+                momenta: verif_momentum_0.to_data().iter::<f64>().collect(),
+                uniforms: uniform.to_data().iter::<f64>().collect(),
+                logp_before: verif_logp_current.to_data().iter::<f64>().collect(),
+                logp_after: verif_logp_proposed.to_data().iter::<f64>().collect(),
+            });
+        }
 
         // Accept the proposal if accept_logp >= ln(u).
         let ln_u = uniform.log(); // shape [n_chains]
@@ -394,6 +413,22 @@ where
     /// - The new positions (tensor of shape `[n_chains, D]`),
     /// - The new momenta (tensor of shape `[n_chains, D]`),
     /// - The log probability evaluated at the new positions (tensor of shape `[n_chains]`).
+    #[cfg(feature = "verif")]
+    /// Verification hook: runs the private leapfrog integrator from `(pos, mom)` after computing
+    /// the half-step gradient term for `pos` exactly as `step` does.
+    pub fn verif_leapfrog(
+        &mut self,
+        pos: Tensor<B, 2>,
+        mom: Tensor<B, 2>,
+    ) -> (Tensor<B, 2>, Tensor<B, 2>, Tensor<B, 1>) {
+        let p = pos.clone().detach().require_grad();
+        let logp = self.target.unnorm_logp_batch(p.clone());
+        let grads = p.grad(&logp.backward()).unwrap();
+        self.last_grad_summands =
+            Tensor::<B, 2>::from_inner(grads.mul_scalar(self.step_size * T::from(0.5).unwrap()));
+        self.leapfrog(pos, mom)
+    }
+
     fn leapfrog(
         &mut self,
         mut pos: Tensor<B, 2>,
